@@ -26,6 +26,9 @@ EXPLANATION = (
 NOT_DECIDED = "Equivalence with the inlined graph over all convex cuts — a differential statement about computed values and input specifications — is not decided; only the boundary clauses above are."
 
 
+from .common import exposes_selection_else_all as _exposes_selection_else_all  # noqa: E402
+
+
 def run(ctx) -> None:
     db, rep = ctx.db, ctx.rep
     rep.rule("C05.R1", "name-space discipline at the nesting boundary", floor=12)
@@ -57,7 +60,7 @@ def run(ctx) -> None:
     ok = len(ins) == 1 and src(ins[0].value) == "graph.inputs.all"
     rep.add("C05.R3", f"{gn.qname}:inputs", ok, init.loc(), "wrapper inputs = inner graph.inputs.all" if ok else "wrapper inputs are not the inner graph's inputs.all")
     outs = [n for n in walk_local(init.node) if isinstance(n, ast.Assign) and any(src(t) == "self.outputs" for t in n.targets)]
-    ok = len(outs) == 1 and isinstance(outs[0].value, ast.IfExp) and src(outs[0].value.test) == "graph.selected is not None" and src(outs[0].value.body) == "graph.selected" and src(outs[0].value.orelse) == "graph.outputs"
+    ok = len(outs) == 1 and _exposes_selection_else_all(db, init, outs[0].value)
     rep.add("C05.R3", f"{gn.qname}:outputs", ok, init.loc(), "wrapper outputs = inner selection if set, else all inner outputs" if ok else "wrapper outputs are not 'graph.selected if set else graph.outputs'")
     rs = db.func("runners._shared.helpers._resolve_select")
     from .common import canon_src
@@ -88,6 +91,11 @@ def run(ctx) -> None:
     from .c18 import check_skip_by_resolver_class
 
     check_skip_by_resolver_class(ctx, "C05.R2")
+    # a nested graph node that ran on an inner default re-runs when the boundary-crossing value arrives: staleness is
+    # tracked for every declared input, collected or not
+    from .c04 import check_staleness_over_all_node_inputs
+
+    check_staleness_over_all_node_inputs(ctx, "C05.R5")
 
     for name in ("has_default_for", "get_default_for"):
         m = gn.methods.get(name)
